@@ -26,6 +26,14 @@ claimed = {
    text="Proof (vesting lists bounded to 2 entries in the keeper-level obligations, labelled bounded): VestedSoFar equals the linear spec function for all inputs and never panics; schedule lemmas (monotone, within [0,Total], complete) on the spec function; ClaimVesting releases exactly what newly vested, conserves released+outstanding, mints only the native token, never panics on well-formed entries; CancelVest returns exactly the cancelled amount as claimable Eden and lowers the outstanding total by it without touching bank state; VestNow pays amount/factor; Vest adds exactly the vested-in amount. Two genuine defects were found by failing obligations (division by zero for zero-length schedules; claim panics after partial cancel), replayed on the real keeper and repaired by fix: commits.",
    note=COMMON_NOTE,
    ref="§8 C14"),
+ "C17": dict(
+   text="Proof over every handler found by mechanical enumeration (all methods of all types implementing a module's generated MsgServer interface): for each of the 38 handlers whose message carries a governance authority (field Authority, or Creator in the parameter module) the generated contract {msg.authority != k.authority} H {err != nil and no state-changing primitive ran} holds on every path; a message type with an Authority field that is never compared fails. Owner-scoped: tradeshield update/cancel (spot, perpetual, batch forms) succeed only when the stored order's owner equals the sender.",
+   note=COMMON_NOTE + "Handlers without a governance authority are listed in the evidence, not claimed. Owner-keyed position lookups of leveragelp/perpetual close are covered under C10 where claimed.",
+   ref="§8 C17"),
+ "C20": dict(
+   text="Proof on every tradeshield order handler and execution helper: create escrows exactly the order amount/collateral under the owner's name; update changes no balance and keeps owner/amount; cancel (single and batch) succeeds only for the owner, returns the full escrow, removes the order and moves nobody else's funds; execution helpers conserve owner wallet + escrow on every exit (the caller swallows errors), move nothing unless the module's own price call satisfies the trigger, and never touch escrows of other orders of either kind (address templates proved distinct, not assumed); batch execution of spot orders moves funds only between listed escrows and their owners. A genuine defect (failed limit-open execution committing a half-opened position) was found by a failing obligation, reproduced on the real keeper and repaired by a fix: commit.",
+   note=COMMON_NOTE + "amm swap acceptance is summarised by a proved frame (only the request queue changes); perpetual.Open is read as arbitrary state change on whatever context it is given. Order-id collections bounded to 2 in the batch obligations (labelled bounded).",
+   ref="§8 C20"),
 }
 
 not_applicable = {}
